@@ -277,7 +277,8 @@ class Driver:
                 tnd = t.ndim if isinstance(t, df.Region) else t.region.ndim
                 dstv = xv if ip else ("r" if isinstance(t, df.Region) else "m")
                 if op == "translate":
-                    c = self.call("translate", xv, dst=dstv, tg=tg, ip=ip, a={"v": [_pair(Fraction(rnd.randint(-6, 6), rnd.choice([1, 1, 2]))) for _ in range(tnd)]})
+                    zero = rnd.random() < 0.15   # the zero vector is a vector like any other
+                    c = self.call("translate", xv, dst=dstv, tg=tg, ip=ip, a={"v": [_pair(Fraction(0 if zero else rnd.randint(-6, 6), rnd.choice([1, 1, 2]))) for _ in range(tnd)]})
                 elif op == "scale":
                     fac = rnd.choice([Fraction(-1)] + ([Fraction(1, 2)] if self.level >= 0 else []) + ([Fraction(2)] if self.level <= 0 else []))
                     c = self.call("scale", xv, dst=dstv, tg=tg, ip=ip, a={"s": [_pair(fac)] * tnd, "ref": []})
